@@ -1,12 +1,12 @@
 (* C05 — The user's objective is only ever evaluated inside the search space (partial: H_raw monitored). *)
 From Coq Require Import String List ZArith Bool.
 From PV Require Import Xnum Select PyLib Argsort Vars Vars_proofs Task_proofs Init Init_proofs Skeleton Skeleton_proofs.
-From PVGen Require Import GenInit Algos Expected GenHyper.
-From PVBridge Require Import InitBridge AlgoBridge ProvMain.
+From PVGen Require Import GenInit Algos Expected GenHyper GenTask.
+From PVBridge Require Import InitBridge AlgoBridge ProvMain TaskBridge.
 
-(* correct_solution corrects against `get_variables()`: the flattened variables of the task AS IT IS NOW (regenerated text of the Task accessors: no cache) *)
-Theorem C05_task_accessors_regenerated : gen_task_methods_shape = true.
-Proof. reflexivity. Qed.
+(* correct_solution corrects against `get_variables()`: the REGENERATED comprehension over the task's CURRENT variables is the model's flat_vars (no cache) *)
+Theorem C05_get_variables_regenerated : forall t, gen_task_get_variables t = flat_vars t.
+Proof. exact get_variables_bridge. Qed.
 
 Theorem C05_solve_regenerated : forall obj t x, gen_task_solve obj t x = option_map snd (solve obj t x).
 Proof. exact solve_bridge. Qed.
